@@ -3,6 +3,10 @@
 import json, subprocess
 ALL = ["C%02d" % i for i in range(1, 21)]
 CHECKS = {
+ "C08": dict(cat="model_checking", ref="§5 C08, §4.5",
+   text="Labelmap.tla models one version of a label volume over a region abstraction (sv[region], supervoxel->body map, allocation counter) with merge, cleave, split-supervoxel and renumber as actions; TLC explores every operation sequence with every argument choice up to the depth bound from several initial layouts and checks Inv_C08_Conservation, Act_C08_OnlyMoves, Inv_C12_NewLabelsFresh. The TLC state graph is realised on a real labelmap instance as a tree of versions: every transition is executed in a fresh child branch of the committed version holding its source state, then every read endpoint (raw and mapped volume decoded to regions and checked voxel-exact inside regions, size, supervoxels, sparsevol rles/srles, sparsevol-size, sparsevol-coarse, index, supervoxel-sizes, label, labels, mapping, sizes, listlabels) is compared with the specification's observation; the parent version is re-read (isolation from descendants/siblings); periodically the process is restarted (clean/SIGKILL) and the reads plus supervoxel-splits, maxlabel, nextlabel, mappings and info are compared again.",
+   note="Voxel layouts are unions of box-shaped regions of a 4-block 32^3 volume with negative coordinates, a single voxel and one 8^3 sub-block; labels are compared modulo the bijection bound from the server's responses. Body split (/split), mutating raw writes and index/mapping ingest are not yet in the explored action set.",
+   tech="TLC exhaustive exploration of Labelmap.tla + transition-cover replay as a version tree on a real labelmap instance"),
  "C17": dict(cat="model_checking", ref="§5 C17, §4.9",
    text="ImageVol.tla: versioned map block -> write id with intended extents; Step is the action for write(version, api raw|blocks, mutate, box, roi) and newversion; TLC explores every sequence of <=2 block-aligned writes and version steps on a 2x2x1 block lattice (Inv_C17_State, Inv_C17_RunAgrees, Act_C17_Step) and prints every maximal behaviour with the expected per-version block map, extents and written hull; ImageVol_cases.tla evaluates Go-seeded longer sequences (3-9 requests, 3x2x2 lattice, up to 4 versions). Every behaviour is replayed on real imageblk instances (six voxel types, several block sizes incl. anisotropic, negative origins): written voxels equal f(write id,x,y,z) bit for bit through GET raw 3-D, XY/XZ/YZ PNG slices, blocks, subvolblocks, specificblocks; unwritten voxels read as background; info/metadata extents cover written voxels; ROI-restricted writes change only blocks in the ROI; other versions unchanged. A direct ReadBlock/WriteBlock sweep covers sub-block offset classes.",
    note="Exhaustive TLC depth is 2 writes (3 was too slow); deeper histories are seeded sequences evaluated by TLC. Sub-block offset arithmetic is seeded exploration against the same oracle. Lossy/isotropic reads not checked. Replay is time-budgeted; unreplayed behaviours are counted in the evidence.",
